@@ -129,7 +129,8 @@ where
 {
     input
         .into_iter()
-        .filter_map(|t| LanguageIdentifier::try_from_bytes(t.as_ref()).ok())
+        // entries of an `Accept-Language` header are usually separated by ", ", tolerate the whitespaces.
+        .filter_map(|t| LanguageIdentifier::try_from_bytes(t.as_ref().trim_ascii()).ok())
         .collect()
 }
 
